@@ -624,7 +624,16 @@ fn judge_update(c: &dyn Cell, start: &[String], upd: &[String], h: &mut Hist) ->
             if k.starts_with("start value") {
                 bad.push((format!("{}: printed value does not parse back", c.name()), k));
             } else {
-                h.bump("update/derive-err");
+                // the update command accepts the line but the generated updater fails: justified
+                // only when the line switches to another subcommand variant and leaves that
+                // variant's required arguments (or its own nested subcommand) out
+                let chain = |v: &[String]| -> Vec<String> { v.iter().filter(|t| ["status", "push", "tag", "remote", "add", "remove", "extra"].contains(&t.as_str())).cloned().collect() };
+                let switches = !chain(upd).is_empty() && chain(upd) != chain(start);
+                if (k == "MissingRequiredArgument" || k == "MissingSubcommand") && switches {
+                    h.bump("update/derive-err (variant switch without its required arguments)");
+                } else {
+                    bad.push((format!("{}: update fails ({}) on a line the update command accepts", c.name(), k), format!("start {:?} update {:?}", start, upd)));
+                }
             }
         }
     }
